@@ -25,7 +25,7 @@ THEOREMS = [
     'SimM.computed_means_all_pairs', 'SimM.jtvec_leaves_no_trace',
 ]
 
-CACHE = os.path.join(common.CACHE, 'c12')
+CACHE = os.path.join(common.CACHE, f'c12-{os.getpid()}')
 
 
 class World:
